@@ -59,5 +59,17 @@ MUTANTS = [
                 reltype, srcids[src_id], ssid, lexicon, metadata=metadata
             )
             local_ss_rows = list(get_synsets_for_ilis([tgt_ili], lexicon_rowids=lexids))""")], 'xfail': 'placeholder keyword ili=ili alias not followed'},
+    {'name': 'deps-keyed-by-provider-id', 'expect': 'C12-R4',
+     'edits': [E(C, """                deps = [(id, ver, _id)
+                        for lex in self._lexicons
+                        for id, ver, _, _id in get_lexicon_dependencies(lex._id)]""", """                deps = list({id: (id, ver, _id)
+                             for lex in self._lexicons
+                             for id, ver, _, _id in get_lexicon_dependencies(lex._id)}.values())""")]},
+    {'name': 'benign-deps-keyed-by-id-and-version', 'expect': 'silent', 'property': 'C12',
+     'edits': [E(C, """                deps = [(id, ver, _id)
+                        for lex in self._lexicons
+                        for id, ver, _, _id in get_lexicon_dependencies(lex._id)]""", """                deps = list({(id, ver): (id, ver, _id)
+                             for lex in self._lexicons
+                             for id, ver, _, _id in get_lexicon_dependencies(lex._id)}.values())""")]},
 ]
 MUTANTS = [m for m in MUTANTS if 'xfail' not in m]
